@@ -1,3 +1,5 @@
+#[cfg(prqlc_verif)]
+pub(crate) use ast::verif_fmt_calls;
 pub(crate) use ast::write_expr;
 pub(crate) use types::{write_ty, write_ty_kind};
 
